@@ -270,3 +270,40 @@ def _(c):
     c.raises("True", label="refused")
     c.on_raise("self.magnitude.value == x and self.magnitude.error == e0 and self.baseunits.expression == old(self.baseunits.expression)", "quantity-unchanged")
     c.on_raise("t.magnitude.value == k", "target-unchanged")
+
+
+
+# ---- a plain number read as radians: the prefixed target scales the uncertainty like the value ----------------------------------
+@contract(Q + ".to", ["C04", "C08"], name="Quantity.to[number-to-radians]")
+def _(c):
+    for ub, fb in [("rad", 1.0), ("mrad", 1e-3)]:
+        def pre(bd, ub=ub, fb=fb):
+            e = bd.real("e")
+            q = bd.new(Q, bd.real("x"), abse=e)
+            return dict(args=[q, ub], env=dict(x=q_value(bd, q), e=e, fb=fb))
+        c.scenario(f"number->{ub}", pre)
+    c.requires("e >= 0")
+    c.ensures("close(self.magnitude.value, x / fb)", "value-unchanged-up-to-the-prefix")
+    c.ensures("close(self.magnitude.error, e / fb) and self.magnitude.error >= 0", "uncertainty-scales-like-the-value")
+    c.no_raise()
+
+
+# ---- a quantity built from an array holds its own copy: what the caller does to the array later does not reach the quantity ------------
+@contract(f"{Q}.__init__", ["C04", "C07"], name="Quantity.__init__[array-is-copied]")
+def _(c):
+    c.bound = "arrays of three elements (float and integer elements)"
+    for kind in ("real", "int"):
+        def pre(bd, kind=kind):
+            xs = [getattr(bd, kind)(f"x{i}") for i in range(3)]
+            arr = bd.call(bd.const(_np.array), bd.list(list(xs)))
+            return dict(args=[bd.obj(Q), arr, "km"], env=dict(xs=xs, arr=arr))
+        c.scenario(f"{kind}-array", pre)
+
+        def pre_plain(bd, kind=kind):
+            xs = [getattr(bd, kind)(f"x{i}") for i in range(3)]
+            arr = bd.call(bd.const(_np.array), bd.list(list(xs)))
+            return dict(args=[bd.obj(Q), arr], env=dict(xs=xs, arr=arr))
+        c.scenario(f"{kind}-array-without-units", pre_plain)
+    c.ensures("elems(self.magnitude.value) == xs and elems(arr) == xs", "values-as-given")
+    c.ensures("not same_object(self.magnitude.value, arr)", "own-array")
+    c.no_raise()
